@@ -20,6 +20,8 @@ import (
 
 	"github.com/trustbloc/sidetree-go/pkg/api/operation"
 	"github.com/trustbloc/sidetree-go/pkg/api/protocol"
+	"github.com/trustbloc/sidetree-go/pkg/document"
+	"github.com/trustbloc/sidetree-go/pkg/patch"
 	"github.com/trustbloc/sidetree-go/pkg/versions/1_0/doccomposer"
 	"github.com/trustbloc/sidetree-go/pkg/versions/1_0/operationapplier"
 	"github.com/trustbloc/sidetree-go/pkg/versions/1_0/operationparser"
@@ -161,8 +163,42 @@ func atoi(s string) int {
 	return n
 }
 
+// unmethod hands the values of the library's own map types to the encoder as the plain maps they are: a digest must
+// not go through a MarshalJSON method of the code under test (which could write to the value, or leave members out).
+func unmethod(v interface{}) interface{} {
+	switch t := v.(type) {
+	case document.Document:
+		return map[string]interface{}(t)
+	case patch.Patch:
+		return map[patch.Key]interface{}(t)
+	case []patch.Patch:
+		out := make([]map[patch.Key]interface{}, len(t))
+		for i := range t {
+			out[i] = map[patch.Key]interface{}(t[i])
+		}
+
+		return out
+	case *protocol.ResolutionModel:
+		if t == nil {
+			return nil
+		}
+
+		type plainModel struct {
+			M   protocol.ResolutionModel
+			Doc map[string]interface{}
+		}
+
+		cp := *t
+		cp.Doc = nil
+
+		return plainModel{M: cp, Doc: map[string]interface{}(t.Doc)}
+	}
+
+	return v
+}
+
 func digestJSON(v interface{}) string {
-	raw, err := json.Marshal(v)
+	raw, err := json.Marshal(unmethod(v))
 	if err != nil {
 		return "marshal-error:" + err.Error()
 	}
